@@ -697,6 +697,92 @@ for nm, f, cls, meth, lst, side, form in COMMIT_SITES:
              kind="sig:(l : list pyev) (x : pyev) : list pyev")
 
 
+# ---------------------------------------------------------------- the probe loop of the non-blocking FIRST_AVAILABLE paths
+#   X = None
+#   for edge in self.out_edges:
+#       if edge.can_put():
+#           X = edge
+#           break
+#   if X is not None: ... self._push_item(item, X) ...   else: ... self.stats["num_item_discarded"] += 1
+# regenerated as: which edge is chosen (a function over lists of abstract edges, SrcFragments' pyedge) and whether the item is
+# pushed (true) or dropped (false) given the outcome of the search.
+def probe_sites(tree, cls, meth):
+    fn = find(tree, cls, meth)
+    out = []
+    for blk in _blocks(fn):
+        for k, st in enumerate(blk):
+            if not (isinstance(st, ast.For) and isinstance(st.target, ast.Name) and ast.unparse(st.iter) == "self.out_edges" and not st.orelse):
+                continue
+            var = st.target.id
+            body = [b for b in st.body if not (isinstance(b, ast.Expr) and isinstance(b.value, ast.Call) and getattr(b.value.func, "id", "") == "print")]
+            if not (len(body) == 1 and isinstance(body[0], ast.If) and not body[0].orelse):
+                if any(isinstance(n, ast.Call) and ast.unparse(n) == var + ".can_put()" for n in ast.walk(st)):
+                    raise Unsupported("%s.%s: probe loop body is not a single `if %s.can_put():`" % (cls, meth, var))
+                continue
+            iff = body[0]
+            if ast.unparse(iff.test) != var + ".can_put()":
+                if "can_put" in ast.unparse(iff.test):
+                    raise Unsupported("%s.%s: probe test is `%s`" % (cls, meth, ast.unparse(iff.test)))
+                continue
+            inner = [b for b in iff.body if not (isinstance(b, ast.Expr) and isinstance(b.value, ast.Call) and getattr(b.value.func, "id", "") == "print")]
+            if not (len(inner) == 2 and isinstance(inner[0], ast.Assign) and len(inner[0].targets) == 1 and isinstance(inner[0].targets[0], ast.Name)
+                    and ast.unparse(inner[0].value) == var and isinstance(inner[1], ast.Break)):
+                raise Unsupported("%s.%s: the probe loop does not `X = %s; break` on success" % (cls, meth, var))
+            X = inner[0].targets[0].id
+            # X = None just before the loop, the decision right after it
+            if k == 0 or ast.unparse(blk[k - 1]) != "%s = None" % X:
+                raise Unsupported("%s.%s: %s is not reset to None before the probe loop" % (cls, meth, X))
+            if k + 1 >= len(blk) or not isinstance(blk[k + 1], ast.If) or ast.unparse(blk[k + 1].test) != "%s is not None" % X:
+                raise Unsupported("%s.%s: no `if %s is not None:` after the probe loop" % (cls, meth, X))
+            dec = blk[k + 1]
+
+            def has(stmts, what):
+                for s_ in stmts:
+                    for n in ast.walk(s_):
+                        if what == "push" and isinstance(n, ast.Call) and ast.unparse(n.func) == "self._push_item" and len(n.args) == 2 \
+                                and ast.unparse(n.args[1]) == X:
+                            return True
+                        if what == "drop" and isinstance(n, ast.AugAssign) and isinstance(n.op, ast.Add) \
+                                and ast.unparse(n.target) in ("self.stats['num_item_discarded']", 'self.stats["num_item_discarded"]') \
+                                and ast.unparse(n.value) == "1":
+                            return True
+                return False
+            yes = (has(dec.body, "push"), has(dec.body, "drop"))
+            no = (has(dec.orelse, "push"), has(dec.orelse, "drop"))
+            if yes[0] == yes[1] or no[0] == no[1]:
+                raise Unsupported("%s.%s: a branch after the probe loop neither / both pushes and drops" % (cls, meth))
+            out.append(("find (fun edge => ed_can_put edge) l",
+                        "match r with Some _ => %s | None => %s end" % ("true" if yes[0] else "false", "true" if no[0] else "false")))
+    if not out:
+        raise Unsupported("no probe loop over self.out_edges in %s.%s" % (cls, meth))
+    if any(o != out[0] for o in out):
+        raise Unsupported("%s.%s: the probe loops differ from each other" % (cls, meth))
+    return out[0]
+
+
+def index_probe(tree, cls, meth):
+    """the room test of the non-blocking index-policy path: `if outedge_to_put.can_put():` -- a CALL"""
+    fn = find(tree, cls, meth)
+    tests = [n.test for n in ast.walk(fn) if isinstance(n, ast.If) and "outedge_to_put" in ast.unparse(n.test) and "can_put" in ast.unparse(n.test)]
+    if not tests:
+        raise Unsupported("no room test on outedge_to_put in %s.%s" % (cls, meth))
+    if all(ast.unparse(t) == "outedge_to_put.can_put()" for t in tests):
+        return "ed_can_put edge"
+    if all(ast.unparse(t) == "outedge_to_put.can_put" for t in tests):
+        return "true"                       # a bound method is always true
+    raise Unsupported("room test `%s`" % ast.unparse(tests[0]))
+
+
+PROBE_SITES = [("Source_behaviour", "nodes/source.py", "Source", "behaviour"), ("Machine_worker", "nodes/machine.py", "Machine", "worker"),
+               ("Splitter_worker", "nodes/splitter.py", "Splitter", "worker"), ("Combiner_worker", "nodes/combiner.py", "Combiner", "worker")]
+for nm, f, cls, meth in PROBE_SITES:
+    frag("%s_probe" % nm, f, lambda t, c=cls, m=meth: probe_sites(t, c, m)[0],
+         "find (fun edge => ed_can_put edge) l", kind="sig:(l : list pyedge) : option pyedge")
+    frag("%s_probe_pushes" % nm, f, lambda t, c=cls, m=meth: probe_sites(t, c, m)[1],
+         "match r with Some _ => true | None => false end", kind="sig:(r : option pyedge) : bool")
+    frag("%s_index_probe" % nm, f, lambda t, c=cls, m=meth: index_probe(t, c, m), "ed_can_put edge", kind="sig:(edge : pyedge) : bool")
+
+
 def belt_gate(tree):
     return GTr().grants(find(tree, "BeltStore", "_do_reserve_put").body)
 
@@ -716,6 +802,7 @@ def main():
            "Record pyev := { ev_id : nat; ev_triggered : bool; ev_processed : bool; ev_ok : bool }.",
            "Definition ev_is (a b : pyev) : bool := Nat.eqb (ev_id a) (ev_id b).",
            "Fixpoint pyremove (x : pyev) (l : list pyev) : list pyev := match l with nil => nil | cons y r => if ev_is y x then r else cons y (pyremove x r) end.",
+           "Record pyedge := { ed_id : nat; ed_can_put : bool }.",
            "Fixpoint pyindex (x : pyev) (l : list pyev) : nat := match l with nil => O | cons y r => if ev_is y x then O else S (pyindex x r) end.", ""]
     report = {}
     trees = {}
